@@ -75,3 +75,21 @@ Definition line_spec (id : Z) (c : ctor) (ops : list op) : string :=
                | Some s => join " | " (obs_spec s :: run_spec s ops)
                | None => "unspecified"
                end).
+
+(* ---- family `huge`: n distinct keys a*j+b (j = 0..n-1) inserted in order, then some of them overwritten.
+   By the refinement theorems (Props/C11.v: c11_every_op_sequence, c11_observers, for every length) the container
+   represents the list of the n keys in insertion order, so: len = n, get_index (key j) = j, the indices are n distinct
+   numbers, iteration has n items in insertion order.  The harness reports these summary facts of the implementation;
+   this is the closed-form expectation (the same for the model and for the specification). *)
+Fixpoint samples_from (fuel : nat) (j step n : Z) : list Z :=
+  match fuel with
+  | O => []
+  | S f => if Z.ltb j n then j :: samples_from f (j + step)%Z step n else []
+  end.
+Definition huge_samples (n : Z) : list Z :=
+  (samples_from 64 0 4096 n ++ (if Z.ltb 0 n then [(n - 1)%Z] else []))%list.
+Definition huge_expect (n : Z) : string :=
+  "len=" ++ show_Z n ++ " idx=" ++ show_list (fun j => "Some(" ++ show_Z j ++ ")") (huge_samples n)
+  ++ " distinct_indices=" ++ show_Z n ++ " iter_len=" ++ show_Z n ++ " keys_len=" ++ show_Z n
+  ++ " iter_in_insertion_order=T keys_in_insertion_order=T to_vec_indices_ascending=T values_ok=T".
+Definition line_huge (tag : string) (id n : Z) : string := line tag id (huge_expect n).
